@@ -74,7 +74,9 @@ SeqProd(ss) == IF ss = <<>> THEN {<<>>}
                ELSE {<<h>> \o t : h \in Head(ss), t \in SeqProd(Tail(ss))}
 
 \* per-dimension selections <<loc, len, step>> that stay inside an extent
-DimSel(ext) == {<<l, n, s>> \in (0..(ext - 1)) \X (1..ext) \X StepVals : l + (n - 1) * s <= ext - 1}
+\* (a step of 0 is only meaningful for a single element: the generated wrappers write one state row with
+\* ApplySlice(loc, step = <<0, 1>>, row); offered when StepVals contains 0)
+DimSel(ext) == {<<l, n, s>> \in (0..(ext - 1)) \X (1..ext) \X StepVals : l + (n - 1) * s <= ext - 1 /\ (s = 0 => n = 1)}
 
 Col(sel, j) == [d \in 1..Len(sel) |-> sel[d][j]]
 
@@ -231,6 +233,7 @@ WApply ==
        \E k \in 1..Len(v.offs) : \E n \in 1..v.shape[dim] : \E s \in StepVals :
           LET loc == Unrank(k - 1, v.shape) IN
           /\ loc[dim] + (n - 1) * s <= v.shape[dim] - 1
+          /\ (s = 0 => n = 1)
           /\ LET vals == FreshVals(n)
                  ws == [j \in 1..n |->
                           <<v.offs[Pos([loc EXCEPT ![dim] = loc[dim] + (j - 1) * s], v.shape) + 1], vals[j]>>]
